@@ -43,8 +43,8 @@ CLAIMED = {
    note="The step from 'no call writes shared memory' to 'every interleaving returns what the call returns alone' is a standard non-interference argument that is NOT machine-checked; no schedule is explored and this is not race detection. Registries (sync.Map / mutex-guarded maps) and factories are not covered. Library objects (cipher.Block, cipher.AEAD) are trusted to be safe for concurrent use.",
    ref="DESIGN.md section 5 C18"),
  "C03": dict(
-   text="ECDSA only: proof that verifier.Verify returns nil iff the signature starts with the key's output prefix and the rest is accepted by the standard strict verifier (crypto/ecdsa.VerifyASN1 as an uninterpreted predicate) for the digest of the message (message||0x00 for LEGACY) - for DER directly, for IEEE-P1363 only if the length is exactly the curve's fixed size (64/96/132) with r,s the big-endian halves; that signer.Sign's output is prefix || a signature the same reference predicate accepts; IEEE-P1363 encode/decode sizes and halves; curve/hash enum tables; NewVerifier builds the verifier from the key's parameters and point.",
-   note="crypto/ecdsa (Sign, SignASN1, VerifyASN1), math/big, crypto/elliptic and hash functions are trusted contracts over uninterpreted predicates (ecdsaVerifies, derSig, beNat, ...): 'an independent strict verifier accepts' is reduced to that predicate. ASN1Encode is an assumed contract. Ed25519, RSA-SSA-PKCS1, RSA-SSA-PSS, the signature factories and ASN.1 strictness are NOT covered in this snapshot.",
+   text="ECDSA, Ed25519, RSA-SSA-PKCS1, RSA-SSA-PSS. ECDSA: proof that verifier.Verify returns nil iff the signature starts with the key's output prefix and the rest is accepted by the standard strict verifier (crypto/ecdsa.VerifyASN1 as an uninterpreted predicate) for the digest of the message (message||0x00 for LEGACY) - for DER directly, for IEEE-P1363 only if the length is exactly the curve's fixed size (64/96/132) with r,s the big-endian halves; that signer.Sign's output is prefix || a signature the same reference predicate accepts; IEEE-P1363 encode/decode sizes and halves; curve/hash enum tables; NewVerifier builds the verifier from the key's parameters and point. Ed25519: Verify accepts exactly prefix || a 64-byte signature the standard verifier accepts for the (LEGACY: 0x00-suffixed) message, Sign returns prefix || the standard signature, which verifies under the matching public key. RSA: modulus >= 2048 and e = 65537 and SHA-256/384/512 are enforced by the constructors as equivalences; the internal verifiers run the standard PKCS1v15 / PSS verifier on the digest with the constructor's hash id and salt length; the key-level wrappers check the prefix and suffix 0x00 for LEGACY; Sign outputs prefix || a signature the standard verifier accepts.",
+   note="crypto/ecdsa (Sign, SignASN1, VerifyASN1), math/big, crypto/elliptic and hash functions are trusted contracts over uninterpreted predicates (ecdsaVerifies, derSig, beNat, ...): 'an independent strict verifier accepts' is reduced to that predicate. crypto/ed25519 and crypto/rsa likewise (ed25519Verifies, rsaPKCS1Verifies, rsaPSSVerifies). ASN1Encode is an assumed contract. The signature factories, key constructors (NewSigner/NewVerifier of Ed25519/RSA) and ASN.1 strictness are NOT covered in this snapshot.",
    ref="DESIGN.md section 5 C03"),
  "C05": dict(
    text="Streaming AEAD key matching only: proof that decryptReader.Read starts every candidate key's decrypting reader on the rewound ciphertext (loop invariant: replay buffer position 0, buffer enabled, no reader chosen yet), keeps the first key whose first Read succeeds, reports errKeyNotFound with no bytes otherwise and on every later call, and writes nothing but the caller's buffer and its own state.",
@@ -52,11 +52,11 @@ CLAIMED = {
    ref="DESIGN.md section 5 C05"),
  "C06": dict(
    text="ECIES-AEAD-HKDF (hybrid/subtle): proof that PointEncode produces the SEC 1 fixed-width encodings (uncompressed, legacy uncompressed without the 0x04 byte, compressed with the parity byte) exactly for on-curve points and PointDecode accepts exactly the byte strings of the right length/tag that decode to an on-curve point; ComputeSharedSecret = fixed-width x coordinate of D*P iff the peer point is on the curve; decapsulate/encapsulate derive HKDF(kem || shared secret, salt, info); Decrypt succeeds iff header, KEM, DEM key and DEM decryption all succeed and returns the DEM plaintext; Encrypt outputs kem || DEM ciphertext for a fresh ephemeral key whose DEM ciphertext decrypts to the plaintext under the key the recipient derives (Diffie-Hellman commutativity as an axiom).",
-   note="crypto/elliptic, math/big, crypto/ecdh arithmetic (ecdhX, onCurve, pubX...), HKDF, the DEM helper and the tink.AEAD/DeterministicAEAD interfaces are trusted contracts over uninterpreted functions; getY (point decompression) is an assumed contract. The end-to-end round trip Decrypt(Encrypt(p)) as one lemma, HPKE (RFC 9180 labels, suites, X25519/ML-KEM/X-Wing) and the hybrid factories are NOT covered in this snapshot.",
+   note="crypto/elliptic, math/big, crypto/ecdh arithmetic (ecdhX, onCurve, pubX...), HKDF, the DEM helper and the tink.AEAD/DeterministicAEAD interfaces are trusted contracts over uninterpreted functions; getY (point decompression) is an assumed contract. HPKE: only the AES-GCM AEAD seal/open (standard AES-GCM under (key, nonce, aad); the caller's ciphertext is not written) is under contract. The end-to-end ECIES round trip as one lemma, the HPKE key schedule (RFC 9180 labels, suite ids, KEMs X25519/ML-KEM/X-Wing), ChaCha20-Poly1305 and the hybrid factories are NOT covered in this snapshot.",
    ref="DESIGN.md section 5 C06"),
  "C07": dict(
-   text="Nonce-based segment layer (streamingaead/subtle/noncebased): proof of the segment nonce format (prefix || 4-byte big-endian counter || last flag, zero padded; failure iff counter >= 2^32-1); representation invariant of Writer (pending bytes never exceed the current segment's limit, first segment shortened by the offset) preserved by every Write for every chunking; Close emits exactly the pending bytes as the last segment under the last-segment nonce and an I/O error of the underlying writer always surfaces from Write/Close; Reader.Read returns bytes only from a successfully decrypted segment, no bytes with any error, and io.EOF after the last segment is consumed; invariant of Reader preserved for every Read size and every short-read behaviour of the source.",
-   note="Segment encrypters/decrypters, io.Writer and io.ReadFull are trusted interface contracts (deterministic functions with ghost logs). The equality of the whole written stream with header||segments of the whole plaintext (an induction over the history of Write calls), the AES-GCM-HKDF / AES-CTR-HMAC segment ciphers, headers and key derivation are NOT covered in this snapshot.",
+   text="Nonce-based segment layer (streamingaead/subtle/noncebased): proof of the segment nonce format (prefix || 4-byte big-endian counter || last flag, zero padded; failure iff counter >= 2^32-1); representation invariant of Writer (pending bytes never exceed the current segment's limit, first segment shortened by the offset) preserved by every Write for every chunking; Close emits exactly the pending bytes as the last segment under the last-segment nonce and an I/O error of the underlying writer always surfaces from Write/Close; Reader.Read returns bytes only from a successfully decrypted segment, no bytes with any error, and io.EOF after the last segment is consumed; invariant of Reader preserved for every Read size and every short-read behaviour of the source; AES-GCM-HKDF NewDecryptingReader consumes exactly the 1+keysize+7 header bytes from any source (whatever its read sizes), checks the length byte, derives the segment key by HKDF from the header's salt and the associated data and passes the header's nonce prefix on.",
+   note="Segment encrypters/decrypters, io.Writer and io.ReadFull are trusted interface contracts (deterministic functions with ghost logs). The equality of the whole written stream with header||segments of the whole plaintext (an induction over the history of Write calls), the AES-GCM-HKDF encrypting side and segment ciphers, and all of AES-CTR-HMAC streaming, are NOT covered in this snapshot.",
    ref="DESIGN.md section 5 C07"),
  "C17": dict(
    text="Proof that the PRF-based key deriver's building blocks are the documented functions: the streaming PRF reader yields the RFC 5869 HKDF stream for (hash, key, salt, info=input salt), hash-type names map to the right hash functions, secretdata.Bytes construction copies (no sharing with caller buffers) and NewBytesFromRand draws exactly n fresh random bytes, and NewKeyDeriver accepts exactly the supported parameter combinations.",
@@ -67,8 +67,8 @@ CLAIMED = {
    note="protobuf Marshal/Unmarshal are trusted to fill/read exactly the message's fields (nothing is assumed about bytes); NewKey/NewParameters of jwthmac are assumed contracts. One table pair is deliberately not inverse (ECIES UnspecifiedPointFormat for X25519) and is excluded with the reason in tools/gen_enum_lemmas.py. NOT covered: the key-level round trip Equal(Parse(Serialize(k)), k) as one theorem for any key type, big-integer leading-zero handling, byte-identical re-serialization, keyset handle readers/writers (binary, JSON, encrypted), Public().",
    ref="DESIGN.md section 5 C12 and section 10.3"),
  "C16": dict(
-   text="SLH-DSA verification path (internal/signature/slhdsa), for all twelve parameter sets as a case split over Table 2: proof that Verify/verifyInternal reject every signature whose length is not (1 + k(1+a) + h + d*len)*n bytes and that NO byte string as signature, message or context makes the verification path panic (every slice/index in verifyInternal, forsPkFromSig, htVerify, xmssPkFromSig, wotsPkFromSig, chain, wotsChecksum, base_2^b, toInt, toByte is in range, the `unreachable` panics are unreachable, the digest split md / tree index / leaf index fits the m-byte digest); toInt / toByte are big-endian conversions (Algorithms 2-3), base_2^b yields outLen digits below 2^b reading only ceil(outLen*b/8) bytes, the checksum digits are below w; the ADRS setters write exactly the Table 1 field at the right offset and nothing else, compress() is the Table 3 layout; verification writes no memory visible to the caller; DecodePublicKey accepts exactly 2n bytes.",
-   note="The six tweakable hash functions held in function-typed fields are trusted function-type contracts (fresh output of the requested length, no writes): byte-identical conformance of keys and signatures with FIPS 205 (the values of the hashes, the tree computations, the digit values of base_2^b) is NOT proved, nor is the signing path (recursive xmssNode/forsNode, forsSign, htSign) or key generation.",
+   text="SLH-DSA verification path (internal/signature/slhdsa), for all twelve parameter sets as a case split over Table 2: proof that Verify/verifyInternal reject every signature whose length is not (1 + k(1+a) + h + d*len)*n bytes and that NO byte string as signature, message or context makes the verification path panic (every slice/index in verifyInternal, forsPkFromSig, htVerify, xmssPkFromSig, wotsPkFromSig, chain, wotsChecksum, base_2^b, toInt, toByte is in range, the `unreachable` panics are unreachable, the digest split md / tree index / leaf index fits the m-byte digest); toInt / toByte are big-endian conversions (Algorithms 2-3), base_2^b yields outLen digits below 2^b reading only ceil(outLen*b/8) bytes, the checksum digits are below w; the ADRS setters write exactly the Table 1 field at the right offset and nothing else, compress() is the Table 3 layout; verification writes no memory visible to the caller; DecodePublicKey accepts exactly 2n bytes; the sixteen tweakable hash instantiations of hash.go (SHAKE: H_msg, PRF, PRF_msg, F, H, T_l; SHA-2 categories 1 and 3/5: PRF, F, H, T_l) equal the FIPS 205 section 11 definitions (Trunc_n(SHA-256/512(PK.seed || zero padding to the block size || compressed ADRS || M)), SHAKE256 of the concatenation) and write nothing of the caller's.",
+   note="Calls through the function-typed hash fields use trusted function-type contracts (fresh output of the requested length, no writes) that the verified instantiations satisfy; the SHA-2 H_msg (MGF1) and PRF_msg (HMAC) instantiations are not under contract. Byte-identical conformance of keys and signatures with FIPS 205 (the values of the hashes, the tree computations, the digit values of base_2^b) is NOT proved, nor is the signing path (recursive xmssNode/forsNode, forsSign, htSign) or key generation.",
    ref="DESIGN.md section 5 C16 and section 10.3"),
  "C10": dict(
    text="Proof (for all inputs, no bound) that every scalar routine of internal/signature/mldsa/algebra.go equals the FIPS 204 algorithm transcribed in specs/fips204.gvc on all of Z_q: reduceOnce, add, sub, neg, mul (Barrett), power2Round, scalePower2, divBy2Gamma2, decompose, highBits, lowBits, makeHint, useHint, centeredAbs, centeredMax. Obligations are generated from the current source on every run.",
